@@ -86,11 +86,24 @@ def r_hash(ctx: Ctx, rt: RT):
     I.libmeth[("HashSeries", "sum")] = lambda I, v, a, k, n: Opaque(f"hashsum({v.attrs['frame']!r},{sorted(v.attrs['kw'].items())})")
 
     def md5(I, a, k, n):
-        seen["digest_input"] = a[0]
-        return Obj(kind="Hasher", attrs={"doc": a[0]})
+        # hashlib.md5(data) or hashlib.md5() followed by one .update(data)
+        if a:
+            seen["digest_input"] = a[0]
+        return Obj(kind="Hasher", attrs={"doc": a[0] if a else None, "updates": 1 if a else 0})
     for algo in ("md5", "sha1", "sha256", "blake2b"):
         I.ext[f"hashlib.{algo}"] = md5
+
+    def h_update(I, v, a, k, n):
+        v.attrs["updates"] += 1
+        if v.attrs["updates"] == 1:
+            v.attrs["doc"] = a[0]
+            seen["digest_input"] = a[0]
+        else:
+            seen["digest_input"] = ("several-updates", v.attrs["doc"], a[0])
+        return None
+    I.libmeth[("Hasher", "update")] = h_update
     I.libmeth[("Hasher", "hexdigest")] = lambda I, v, a, k, n: "DIGEST"
+    I.ext["builtins.dict.fromkeys"] = lambda I, a, k, n: {I.hashkey(x, n): (a[1] if len(a) > 1 else None) for x in I.iterate(a[0], n)}
     # builtin hash() of text is salted per process, id() is an address: neither is a content digest
     I.ext["builtins.hash"] = lambda I, a, k, n: Opaque("process-dependent:hash()")
     I.ext["builtins.id"] = lambda I, a, k, n: Opaque("process-dependent:id()")
